@@ -192,7 +192,8 @@ def _callee_seq(F, f):
                 nm = re.sub(r"^reader::byte_(region::ByteRegion|slice::ByteSlice)::(::)?", "Self::", nm)
                 # a constructor function whose body is nothing but the struct literal is that struct literal
                 rf = c.get("rfn")
-                if rf is not None and rf != f["id"]:
+                params = (F.hir[rf].get("params") or []) if rf is not None else []
+                if rf is not None and rf != f["id"] and not (params and re.search(r"\bself\b", params[0])):
                     inner = [m_ for m_ in hir_walk(F.tree(rf)) if m_.get("k") in ("call", "struct", "match", "if", "loop")]
                     if len(inner) == 1 and inner[0].get("k") == "struct":
                         nm = "struct " + re.sub(r"<.*", "", inner[0]["path"].split("::")[-1])
